@@ -241,6 +241,20 @@ func PollUntil(timeout time.Duration, cond func() bool) bool {
 	}
 }
 
+// PollUntilEvery is PollUntil with a caller-chosen polling interval.
+func PollUntilEvery(every, timeout time.Duration, cond func() bool) bool {
+	deadline := time.Now().Add(timeout)
+	for {
+		if cond() {
+			return true
+		}
+		if !time.Now().Before(deadline) {
+			return false
+		}
+		time.Sleep(every)
+	}
+}
+
 // WaitPeers waits until this node's peer table holds exactly the given names.
 func (n *FedNode) WaitPeers(names []string, timeout time.Duration) error {
 	want := append([]string(nil), names...)
